@@ -73,7 +73,7 @@ func (h *H) launch(src, dst *Node, cfg roundCfg, base uint32, r *lib.Rand) ([]ex
 		if err != nil {
 			return nil, nil, 0, err
 		}
-		b := &Burst{To: to, Gap: cfg.gap, Done: make(chan struct{}), AskTimeout: 60 * time.Second}
+		b := &Burst{To: to, Gap: cfg.gap, Done: make(chan struct{}), AskTimeout: 20 * time.Second}
 		for i := 1; i <= cfg.burst; i++ {
 			sz := cfg.sizes[r.Intn(len(cfg.sizes))]
 			var data []byte
@@ -199,19 +199,29 @@ func (h *H) round(A, B *Node, cfg roundCfg, seed uint64) {
 		}
 	}
 	total := cfg.senders * cfg.burst
-	deadline := 60 * time.Second
-	okAB := waitUntil(deadline, func() bool { return B.Rec.Len()-mB.rec >= total })
-	okBA := !cfg.reverse || waitUntil(deadline, func() bool { return A.Rec.Len()-mA.rec >= total })
+	// one bounded wait for the whole round (generous: a healthy round takes well under 3 s)
+	limit := time.Now().Add(25 * time.Second)
+	left := func() time.Duration {
+		if d := time.Until(limit); d > 0 {
+			return d
+		}
+		return time.Millisecond
+	}
+	okAB := waitUntil(left(), func() bool { return B.Rec.Len()-mB.rec >= total })
+	okBA := !cfg.reverse || waitUntil(left(), func() bool { return A.Rec.Len()-mA.rec >= total })
 	for _, d := range append(donesAB, donesBA...) {
 		select {
 		case <-d:
-		case <-time.After(deadline):
+		case <-time.After(left()):
+			okAB = false
 		}
 	}
 	// let stragglers (duplicates!) show up
 	time.Sleep(30 * time.Millisecond)
-	_ = okAB
-	_ = okBA
+	if !okAB || !okBA {
+		// the monitors below report what is missing; later rounds would only wait again
+		h.abort = true
+	}
 	desc := lib.L(lib.S(cfg.name), lib.NI(cfg.senders), lib.NI(cfg.burst), lib.N(seed))
 	h.checkDelivery(cfg.name+" A->B", B, mB.rec, expAB, desc)
 	if cfg.reverse {
@@ -408,6 +418,10 @@ func (h *H) runFrame() {
 		}
 	}
 	for i, rc := range rounds {
+		if h.abort {
+			h.o.Stats["rounds-skipped-after-incomplete-round"]++
+			continue
+		}
 		t := time.Now()
 		h.round(A, B, rc, h.seed*1000+uint64(i))
 		h.logf("round %s: %.2fs (monitors so far %d)", rc.name, time.Since(t).Seconds(), len(h.o.Monitors))
@@ -432,7 +446,7 @@ func (h *H) overhead(A, B *Node) int {
 
 // exactLimit: a body of exactly 4 MiB is the largest legal frame (the receiver rejects only len > 4 MiB)
 func (h *H) exactLimit(A, B *Node) {
-	if h.tier != "thorough" {
+	if h.tier != "thorough" || h.abort {
 		return
 	}
 	ov := h.overhead(A, B)
@@ -442,6 +456,9 @@ func (h *H) exactLimit(A, B *Node) {
 
 // handshakeSplit: TCP may deliver the 4+n byte handshake in two reads.
 func (h *H) handshakeSplit(A, B *Node) {
+	if h.abort {
+		return
+	}
 	for _, split := range []int{1, 3, 4, 9} {
 		plan := func(i int) Plan { p := defaultPlan(); p.HsSplit = split; return p }
 		B.Proxy.KillAll()
